@@ -87,6 +87,7 @@ func checkC11(p *Prog, r *Report) {
 	} else {
 		r.Undecided("O9", "anchor:api.EntityLocalInterface/FeatureLocalInterface", "", "interface not found")
 	}
+	singleApplicationRule(p, r, "O10")
 	r.Floor("O1", "stores to FunctionData.data", nStores, 2)
 	r.Floor("O2", "loads of FunctionData.data", nLoads, 3)
 	c11Rest(p, r, lsC11)
